@@ -62,23 +62,19 @@ func (q *IndexNotificationQueue) Run() {
 			return
 		case <-gc.C:
 			iter.Consume(q.items.Values(), func(h *heap.Heap[*item]) {
-				l := h.Len()
-				for i := 0; i < l; i++ {
-					elem := h.Slice[i]
-					if elem.ctx.Err() != nil {
-						// Reorder
-						elem.revision = 0
-						elem.waitCh <- elem.ctx.Err()
+				// Answer and remove all the waiters whose context has ended wherever in the heap they are.
+				// Every waiter is answered exactly once (its channel has room for a single answer),
+				// answering a waiter again would block this loop forever.
+				live := make([]*item, 0, h.Len())
+				for _, elem := range h.Slice {
+					if err := elem.ctx.Err(); err != nil {
+						elem.waitCh <- err
+						continue
 					}
+					live = append(live, elem)
 				}
-				h.Fix(0)
-				for i := 0; i < l; i++ {
-					elem := h.Peek()
-					if elem.revision == 0 {
-						h.Pop()
-					} else {
-						break
-					}
+				if len(live) != h.Len() {
+					*h = *heap.New(h.Less, live...)
 				}
 			})
 		case it := <-q.add:
